@@ -1,136 +1,95 @@
-"""Interpreted twin of a numba parallel kernel: the kernel's own py_func code object is executed by CPython with a
-substituted globals dict (the real `numba` module is never touched):
+"""Interpreted twins of the binning kernels for C08, built on the generic engine vf/twin.py.
 
-  numba.prange          -> iteration in a chosen order, each iteration owned by a *virtual* thread id
-  numba.get_thread_id   -> the virtual owner of the current iteration
-  numba.set/get_num_threads -> virtual
-  np.zeros              -> arrays whose first axis has one row per thread are tracked: inside the parallel loop a row
-                           may only be touched by its owner (private accumulators => iterations of different threads
-                           are independent, any interleaving gives the same integers)
+The kernel's own source is executed by CPython with `numba` virtualised (prange iterations are mapped to virtual threads
+under a chosen assignment, get_thread_id / set_num_threads / get_num_threads are virtual, everything else is delegated to
+the real module) and arrays allocated in the sequential part tracked element by element.  Conflict rule (Bernstein, per
+virtual thread): two prange iterations that run on DIFFERENT virtual threads touch the same array element and at least one
+of them writes it.  Reads alone never conflict; iterations of the same thread may share anything.  Nothing is assumed about
+how the kernel lays out its accumulators.
 
-numpy indexing raises IndexError for every read/write past the end of an array (compiled code would read garbage).
+numpy indexing raises IndexError for every access past the end of an array (compiled code would read garbage).
+Works for dispatchers and for plain Python wrappers around a jitted kernel (nested kernels become twins lazily).
 """
-import types
-import numpy as np
+import inspect
+import re
+import textwrap
+import traceback
 
 SCHEDULES = ('chunks', 'roundrobin', 'onethread', 'revchunks')
+_ASSIGN = {'chunks': 'chunk', 'roundrobin': 'rr', 'onethread': 'one', 'revchunks': 'rev'}
 
 
-class State:
-    def __init__(self):
-        self.nthread = 1
-        self.sched = 'chunks'
-        self.cur = None
-        self.tid = 0
-        self.races = []
-        self.touched = 0
+class _ScalarFast:
+    """A nested jitted helper called with scalar arguments only (P_n(mu2, pole), n_choose_k, ...) cannot touch any array of
+    the caller, so the compiled helper itself is called (same results, much faster); as soon as an array is passed the call is
+    interpreted as a twin like everything else."""
+
+    def __init__(self, tw, disp):
+        self._tw, self._disp = tw, disp
+
+    def __call__(self, *a, **k):
+        import numpy as np
+        if any(isinstance(x, (np.ndarray, list, tuple, dict)) for x in a) or any(isinstance(x, (np.ndarray, list, tuple, dict)) for x in k.values()):
+            return self._tw.twin(self._disp)(*a, **k)
+        return self._disp(*a, **k)
+
+    def __getattr__(self, k):
+        return getattr(self._disp, k)
 
 
-class Tracked(np.ndarray):
-    _st = None
-    _private = False
+def _twins_class():
+    from vf import twin
 
-    def __array_finalize__(self, obj):
-        self._st = None
-        self._private = False
-
-    def _chk(self, key, what):
-        st = self._st
-        if st is not None and self._private and st.cur is not None:
-            st.touched += 1
-            row = key[0] if isinstance(key, tuple) else key
-            if not (isinstance(row, (int, np.integer)) and int(row) == st.tid):
-                if len(st.races) < 5:
-                    st.races.append(f'iteration {st.cur} owned by thread {st.tid} {what} accumulator row {row!r}')
-
-    def __getitem__(self, key):
-        self._chk(key, 'read')
-        return super().__getitem__(key)
-
-    def __setitem__(self, key, val):
-        self._chk(key, 'wrote')
-        super().__setitem__(key, val)
+    class Twins(twin.Twins):
+        def subst(self, val):
+            pf = self.pyfunc(val)
+            if pf is not None and callable(val):
+                try:
+                    plain = 'prange' not in inspect.getsource(pf)
+                except (OSError, TypeError):
+                    plain = False
+                if plain:
+                    return _ScalarFast(self, val)
+            return super().subst(val)
+    return Twins
 
 
-class FakeNumba:
-    def __init__(self, st, real):
-        self._st = st
-        self.config = real.config
+class Twin:
+    def __init__(self, module, name):
+        from vf import twin
+        self.module, self.name = module, name
+        self.rt = twin.Runtime()
+        self.tw = _twins_class()(self.rt)
+        self.f = self.tw.twin(getattr(module, name))
+        self.conflicts = []
+        self.naccess = 0
 
-    def set_num_threads(self, n):
-        if not 1 <= int(n) <= 16:
-            raise ValueError('The number of threads must be between 1 and 16')
-        self._st.nthread = int(n)
-
-    def get_num_threads(self):
-        return self._st.nthread
-
-    def get_thread_id(self):
-        return self._st.tid
-
-    def prange(self, *a):
-        st = self._st
-        its = list(range(*a))
-        n, T = len(its), st.nthread
-        chunk = -(-n // T) if n else 1
-        if st.sched == 'chunks':
-            order, owner = its, {i: p // chunk for p, i in enumerate(its)}
-        elif st.sched == 'roundrobin':
-            order, owner = its, {i: p % T for p, i in enumerate(its)}
-        elif st.sched == 'onethread':
-            order, owner = its, {i: T - 1 for i in its}
-        else:  # the last thread's chunk runs first, and each chunk backwards
-            order, owner = its[::-1], {i: p // chunk for p, i in enumerate(its)}
+    def __call__(self, *a, nthread=1, sched='chunks', **kw):
+        order = (lambda n: list(range(n))[::-1]) if sched == 'revchunks' else None
+        self.rt.reset(nthreads=nthread, max_threads=64, assign=_ASSIGN[sched], by_thread=True, order=order)
+        self.conflicts = []
         try:
-            for i in order:
-                st.cur, st.tid = i, owner[i]
-                yield i
+            return self.f(*a, nthread=nthread, **kw)
         finally:
-            st.cur = None
+            self.naccess = self.rt.naccess
+            self.conflicts = [c for reg in self.rt.regions for c in reg.conflicts]
 
+    def describe_conflicts(self):
+        return '; '.join(f'{kind} on element {el} of array allocated at {label} by virtual threads {ths}' for label, kind, el, ths in self.conflicts[:4])
 
-class NPProxy:
-    def __init__(self, st):
-        self._st = st
-
-    def __getattr__(self, name):
-        return getattr(np, name)
-
-    def zeros(self, shape, dtype=float):
-        a = np.zeros(shape, dtype=dtype)
-        if isinstance(shape, tuple) and len(shape) >= 2 and shape[0] == self._st.nthread:
-            a = a.view(Tracked)
-            a._st = self._st
-            a._private = True
-        return a
-
-
-def make_twin(dispatcher):
-    """returns (callable, state); callable(*args, sched=..., **kw) runs the kernel body interpreted"""
-    import numba as real
-    py = dispatcher.py_func
-    st = State()
-    g = dict(py.__globals__)
-    g['numba'] = FakeNumba(st, real)
-    g['np'] = NPProxy(st)
-    f = types.FunctionType(py.__code__, g, py.__name__, py.__defaults__, py.__closure__)
-    f.__kwdefaults__ = py.__kwdefaults__
-
-    def call(*a, sched='chunks', **kw):
-        st.sched, st.cur, st.races, st.touched = sched, None, [], 0
-        return f(*a, **kw)
-    return call, st
-
-
-def oob_site(exc):
-    """source text of the innermost kernel line of an IndexError raised in the twin -> (array name, line)"""
-    import linecache
-    import re
-    import traceback
-    tb = traceback.extract_tb(exc.__traceback__)
-    for fr in reversed(tb):
-        if fr.filename.endswith('power_spectrum.py'):
-            line = (fr.line or linecache.getline(fr.filename, fr.lineno)).strip()
-            m = re.search(r'(\w+)\[', line)
-            return (m.group(1) if m else 'unknown'), f'{fr.filename.split("/")[-1]}:{fr.lineno}: {line}'
-    return 'unknown', str(exc)
+    def oob_site(self, exc):
+        """(array name, 'file:line: source text') of the innermost kernel line of an IndexError raised in the twin"""
+        frames = [fr for fr in traceback.extract_tb(exc.__traceback__) if fr.filename.endswith(':twin')]
+        if not frames:
+            return 'unknown', str(exc)
+        inner = frames[-1]
+        fname = next((fr.name for fr in reversed(frames) if not fr.name.startswith('__body')), None)
+        try:
+            obj = getattr(self.module, fname)
+            pf = self.tw.pyfunc(obj) or obj
+            line = textwrap.dedent(inspect.getsource(pf)).splitlines()[inner.lineno - 1].strip()
+            where = f'{inner.filename[:-5].split("/")[-1]}:{pf.__code__.co_firstlineno + inner.lineno - 1}: {line}'
+        except Exception:
+            return 'unknown', f'{inner.filename}:{inner.lineno}: {exc}'
+        m = re.search(r'(\w+)\[', line)
+        return (m.group(1) if m else 'unknown'), where
